@@ -47,6 +47,7 @@ func TestMain(m *testing.M) {
 			{ID: kfOwnDelete, Present: probeOwnDelete},
 			{ID: kfReported, Present: probeReported},
 			{ID: kfRODDL, Present: probeReadOnlyDDL},
+			{ID: kfColdDDL, Present: probeColdDDL},
 			{ID: kfPgAfterFailure, Present: probePgAfterFailure},
 			{ID: kfPgAffected, Present: probePgAffected},
 		},
@@ -259,6 +260,31 @@ func probePgAffected() (bool, string) {
 	}
 	if n, _ := res.RowsAffected(); n != 2 {
 		return true, fmt.Sprintf("pgsql: INSERT of 2 rows reports RowsAffected()=%d", n)
+	}
+	return false, ""
+}
+
+// probeColdDDL (K13g): ALTER TABLE ADD COLUMN of a transaction that was rolled back keeps
+// acting on later transactions when that transaction was the first one after a DDL commit.
+func probeColdDDL() (bool, string) {
+	dir := vk.Dir()
+	defer os.RemoveAll(dir)
+	db, err := sqlgen.Open(dir, sqlgen.DBOpts{})
+	if err != nil {
+		return false, ""
+	}
+	defer db.Close()
+	if err := db.Exec("CREATE TABLE t (id INTEGER, PRIMARY KEY id)", nil); err != nil {
+		return false, ""
+	}
+	if err := db.Exec("BEGIN TRANSACTION; ALTER TABLE t ADD COLUMN a1 INTEGER; ROLLBACK", nil); err != nil {
+		return false, ""
+	}
+	if err := db.Exec("ALTER TABLE t ADD COLUMN a2 BLOB[16]", nil); err != nil {
+		return false, ""
+	}
+	if err := db.Exec("INSERT INTO t (id, a2) VALUES (1, x'01020300')", nil); err != nil {
+		return true, "CREATE TABLE t; BEGIN; ALTER TABLE t ADD COLUMN a1 INTEGER; ROLLBACK; ALTER TABLE t ADD COLUMN a2 BLOB[16]; INSERT INTO t (id, a2) VALUES (1, x'01020300') fails: " + err.Error()
 	}
 	return false, ""
 }
